@@ -371,6 +371,54 @@ Section Decide.
   Qed.
 End Decide.
 
+(* per connection at most one of {relayed to the redirect target, answered by the server itself}; which one is decided
+   by readFirstPacket and the decision alone *)
+Lemma one_outcome : forall dh gcm_open,
+  (forall k n ct aad pt, gcm_open k n ct aad = Some pt -> (length pt + 16 = length ct)%nat) ->
+  forall http_hidden s e st now,
+  let r := rfp s e in
+  let o := dispatch_conn dh gcm_open http_hidden s e st now in
+  (relays o = true -> server_writes o = false) /\ (server_writes o = true -> relays o = false) /\
+  (relays o = true <->
+     (r_err r = RNone /\ exists why, decide dh gcm_open (packet_of http_hidden r) st now = Redirect why) \/
+     (r_err r <> RNone /\ r_redir r = true)) /\
+  (relays o = true -> o = OWeb (first_data r) (r_rest r) /\ first_data r ++ r_rest r = s).
+Proof.
+  intros dh gcm_open Hlen http_hidden s e st now r o.
+  destruct (dispatch_no_server_byte dh gcm_open Hlen http_hidden s e st now) as ((W1 & W2) & Hred & Herr & Hnc).
+  fold r in W1, W2, Hred, Herr. fold o in W1, W2, Hred, Herr, Hnc.
+  assert (relays o = true <->
+     (r_err r = RNone /\ exists why, decide dh gcm_open (packet_of http_hidden r) st now = Redirect why) \/
+     (r_err r <> RNone /\ r_redir r = true)) as Hiff.
+  { subst o. unfold dispatch_conn. fold r.
+    destruct (r_err r) eqn:Er.
+    1:{ destruct (decide dh gcm_open (packet_of http_hidden r) st now) eqn:D; cbn [relays]; split;
+        try discriminate; try (intros _; left; split; [reflexivity | eexists; reflexivity]); try reflexivity;
+        intros [[_ [why H]] | [H _]]; try discriminate; congruence. }
+    all: destruct (r_redir r) eqn:Rd; cbn [relays]; split; try discriminate; try reflexivity;
+      try (intros _; right; split; [discriminate | reflexivity]);
+      intros [[H _] | [_ H]]; discriminate. }
+  split; [|split; [|split]].
+  - destruct o; cbn; auto; discriminate.
+  - destruct o; cbn; auto; discriminate.
+  - exact Hiff.
+  - intros Hr. apply Hiff in Hr. destruct Hr as [[E [why D]] | [E Rd]].
+    + exact (Hred why E D).
+    + destruct (Herr E) as [H _]. exact (H Rd).
+Qed.
+
+Lemma unknown_method_is_web : forall dh gcm_open,
+  (forall k n ct aad pt, gcm_open k n ct aad = Some pt -> (length pt + 16 = length ct)%nat) ->
+  forall p st now ci,
+  auth_first_packet dh gcm_open p st now = DOk ci -> known_enc (ci_enc ci) = true -> is_admin st ci = false ->
+  ~ In (ci_method ci) (st_proxyBook st) ->
+  decide dh gcm_open p st now = Redirect RMethod.
+Proof.
+  intros dh gcm_open _ p st now ci A K Ad Hn. unfold decide. rewrite A, K, Ad. cbn [negb].
+  destruct (mem_bytes (ci_method ci) (st_proxyBook st)) eqn:Mb; [|reflexivity].
+  apply mem_bytes_iff in Mb. contradiction.
+Qed.
+
 (* what the relay hands to either side is only ever the other side's bytes *)
 Lemma goweb_bytes : forall data rest e d t,
   let w := goweb data rest e d t in
